@@ -17,6 +17,18 @@ parts
            inputs, scalar / vector outputs): outputs == predict and partials == linearize of an identically
            configured surrogate trained directly on the same data; after new training data + `train = True` the
            outputs follow the new data.
+  layout   the component's input layout: 2-4 inputs of mixed sizes in every order (array first / in the middle /
+           several arrays / 2-D shaped inputs, total <= 6 columns), vec_size 1 and > 1, 1-3 outputs of different shapes
+           each with its own surrogate or the default_surrogate, inputs optionally fed through a connection with a unit
+           conversion, training data through add_input/add_output(training_data=) or through the options (before /
+           after setup), variables declared on the instance or in setup() of a subclass, fwd/rev totals through the
+           dictionary or an assembled (dense/csc) jacobian.  The harness concatenates the training matrix and the
+           query point itself (own column offsets = cumulative sizes) and demands: outputs == predict(own
+           concatenation); compute_totals and the component's own sub-jacobians == linearize(...)[:, own columns]
+           (times the conversion factor for a connected source); compute_totals == 5-point central difference of the
+           component's outputs (two step sizes; NN interpolants only where the neighbour set is constant over the
+           stencil).  Repeated after retraining on new data (same / different number of samples) or after a second
+           setup().
 
 Tolerances are derived from conditioning (design matrix, neighbour simplex, RBF weights, correlation matrix);
 ill-conditioned training sets are discarded and counted.
@@ -35,22 +47,35 @@ LEVEL = 'exploration'
 TECHNIQUE = 'runtime monitoring: generating function / training data / numerical differentiation of predict; component-vs-surrogate differential'
 RULE = ('training sets of well-separated random points (dimension 1-4 (rbf: up to 7), 6-40 points, 1-3 outputs) in boxes of random '
         'location/scale x surrogate option grid (NN type, num_neighbors, rbf_family; Kriging eval_rmse; component '
-        'vec_size, default vs per-output surrogate, input/output shapes); distinct = distinct (part, surrogate, '
+        'vec_size, default vs per-output surrogate, input/output shapes; component input layouts: 2-4 inputs of mixed '
+        'sizes in every order x vec_size x per-output surrogates x unit-converting connections x training-data route x '
+        'declaration site x retrain/re-setup x fwd/rev x jacobian type); distinct = distinct (part, surrogate, '
         'options, dims, points, outputs); non-trivial = trained and at least one observable judged')
 LEVEL_TEXT = 'randomised exploration with conditioning-derived tolerances over every stock surrogate and the component'
 ASSUMPTIONS = ['Kriging nugget=0 still applies the documented Tikhonov regularisation (h = 1e-8*s_max); the reproduction '
                'bound includes its exact effect; sets whose bound exceeds 1e-3 are discarded',
                'Kriging may reject a training set (hyper-parameter optimisation failure raises ValueError): discarded',
                'NN interpolants are differentiated only where the ordered neighbour set is locally constant',
-               'weighted-NN through NearestNeighbor.predict uses the call-time defaults (num_neighbors=5)']
-MIN_JUDGED = {'quick': 150, 'thorough': 2500}
+               'weighted-NN through NearestNeighbor.predict uses the call-time defaults (num_neighbors=5)',
+               'component layout part: the reference is an identically configured surrogate trained on the matrix the '
+               'harness concatenates itself; the component sub-jacobian is read from comp._jacobian (internal; if it '
+               'cannot be read the observation is skipped and the run is INCONCLUSIVE)',
+               'unit conversions of connected inputs follow the harness table (cm>m, km>m, min>s, inch>ft, degC>degK)']
+MIN_JUDGED = {'quick': 200, 'thorough': 3000}
 SHARD_TIMEOUT = {'quick': 600, 'thorough': 2400}
 REQUIRED_COUNTERS = ['obs:rs:predict', 'obs:rs:linearize', 'obs:nn:linear:train-point', 'obs:nn:weighted:train-point',
                      'obs:nn:rbf:train-point', 'obs:nn:linear:linearize', 'obs:nn:weighted:linearize',
                      'obs:nn:rbf:linearize', 'obs:kriging:train-point', 'obs:kriging:linearize',
                      'obs:comp:output', 'obs:comp:partials', 'obs:comp:retrain', 'obs:comp:vec_size>1',
                      'obs:comp:default_surrogate', 'cell:comp:rs', 'cell:comp:nn-linear', 'cell:comp:nn-weighted',
-                     'cell:comp:nn-rbf', 'cell:comp:kriging']
+                     'cell:comp:nn-rbf', 'cell:comp:kriging',
+                     'obs:layout:output', 'obs:layout:totals', 'obs:layout:component-jacobian', 'obs:layout:fd',
+                     'cell:layout:vec=1:array-before-another-input', 'cell:layout:vec>1:array-before-another-input',
+                     'cell:layout:several-array-inputs', 'cell:layout:2d-input',
+                     'cell:layout:unit-conversion-on-connection', 'cell:layout:different-surrogates',
+                     'cell:layout:default_surrogate', 'cell:layout:data-route:kw', 'cell:layout:data-route:options-pre',
+                     'cell:layout:data-route:options-post', 'cell:layout:declared-in:setup',
+                     'cell:layout:then:retrain', 'cell:layout:then:retrain-resized', 'cell:layout:then:resetup']
 
 EPS = S.EPS
 W5 = np.array([1.0, -8.0, 0.0, 8.0, -1.0]) / 12.0
@@ -556,7 +581,417 @@ def judge_comp(case, acc):
 
 
 # ------------------------------------------------------------------------------------------------
-JUDGES = {'rs': judge_rs, 'nn': judge_nn, 'kriging': judge_kriging, 'comp': judge_comp}
+# Input-layout layer of the component: the component concatenates its inputs (declaration order, each flattened in
+# C order) into the surrogate's input vector and cuts the surrogate jacobian back into per-input blocks.  The harness
+# keeps its OWN column offsets (cumulative sizes) and builds the concatenated training matrix / query point itself.
+UNIT_PAIRS = {        # own table: value seen by the component = (value of the connected source + offset) * factor
+    'cm>m': ('cm', 'm', 0.01, 0.0),
+    'km>m': ('km', 'm', 1000.0, 0.0),
+    'min>s': ('min', 's', 60.0, 0.0),
+    'inch>ft': ('inch', 'ft', 1.0 / 12.0, 0.0),
+    'degC>degK': ('degC', 'degK', 1.0, 273.15),
+}
+_STENCIL = (-2, -1, 1, 2)
+_W4 = np.array([1.0, -8.0, 8.0, -1.0]) / 12.0
+
+
+def _size(shape):
+    n = 1
+    for s in shape:
+        n *= int(s)
+    return n
+
+
+def _layout_class(in_sizes, j):
+    """where input j sits: decides whether 'ordinal position' and 'cumulative size' column offsets differ"""
+    if j == 0:
+        return 'first-input'
+    return 'input-after-array' if max(in_sizes[:j]) > 1 else 'input-after-scalars'
+
+
+def _train_form(rng, arr, shape):
+    """the documented forms of training data for one variable: arr is (m, size)"""
+    m = arr.shape[0]
+    if _size(shape) == 1:
+        f = int(rng.integers(0, 3))
+        if f == 0:
+            return [float(v) for v in arr[:, 0]]
+        if f == 1:
+            return arr[:, 0].copy()
+        return arr.reshape((m,) + (tuple(shape) or (1,))).copy()
+    if rng.random() < 0.3:
+        return [row.reshape(shape).copy() for row in arr]
+    return arr.reshape((m,) + tuple(shape)).copy()
+
+
+def _noise_amp(spec, sur, y, p):
+    """magnitude of the terms summed by predict at p (per output column): scale of its round-off.  Tolerance only."""
+    k = y.shape[1]
+    kind = spec['kind']
+    try:
+        if kind == 'rs':
+            return np.abs(S.quad_features(p)).max() * np.abs(np.asarray(sur.betas, dtype=float)).reshape(-1, k).sum(axis=0)
+        if kind == 'kriging':
+            xn = (p - sur.X_mean) / sur.X_std
+            r = np.exp(-((xn - sur.X) ** 2 * sur.thetas).sum(axis=1))
+            return np.abs(sur.Y_mean).ravel() + np.abs(sur.Y_std).ravel() * (r @ np.abs(sur.alpha))
+    except Exception:
+        pass
+    return np.full(k, 16.0 * (np.abs(y).max() + 1e-300))
+
+
+def judge_layout(case, acc):
+    import openmdao.api as om
+    rng = np.random.default_rng(case['seed'])
+    rep = _Report(acc, case)
+    vec = case['vec']
+    ins, outs, dflt = case['ins'], case['outs'], case.get('default')
+    in_shapes = [tuple(i['shape']) for i in ins]
+    in_sizes = [_size(s) for s in in_shapes]
+    out_shapes = [tuple(o['shape']) for o in outs]
+    out_sizes = [_size(s) for s in out_shapes]
+    off = [0]
+    for sz in in_sizes:
+        off.append(off[-1] + sz)                      # the harness's own column offsets
+    d = off[-1]
+    specs = [(o.get('spec') or dflt) for o in outs]
+    in_names = ['i%d' % j for j in range(len(ins))]
+    out_names = ['o%d' % j for j in range(len(outs))]
+    pairs = [UNIT_PAIRS[i['conn']] if i.get('conn') else None for i in ins]
+    fac = np.array([p[2] if p else 1.0 for p in pairs])
+    ofs = np.array([p[3] if p else 0.0 for p in pairs])
+    wrt = [('ivc.s%d' % j) if pairs[j] else ('c.' + in_names[j]) for j in range(len(ins))]
+    of = ['c.' + n for n in out_names]
+    route, declare, phase2 = case['route'], case['declare'], case['phase2']
+    lo, hi = _box(rng, d)
+    vtag = 'vec=1' if vec == 1 else 'vec>1'
+
+    def data(m):
+        x = S.separated_points(rng, m, d, lo, hi)
+        xu = (x - lo) / (hi - lo)
+        ys = []
+        for sp, sz in zip(specs, out_sizes):
+            if sp['kind'] == 'rs':
+                q = S.Quadratic(rng, d, sz)
+                ys.append(np.array([q(p) for p in x]))
+            elif sp['kind'] == 'kriging':
+                ys.append(rng.uniform(-1, 1, (m, sz)))
+            else:
+                fr = rng.uniform(0.5, 2.0, (sz, d))
+                ys.append(np.sin(xu @ fr.T * 3.0) + rng.uniform(-1, 1, sz))
+        return x, ys
+
+    def forms(x, ys):
+        t = {}
+        for j, n in enumerate(in_names):
+            t[n] = _train_form(rng, x[:, off[j]:off[j + 1]], in_shapes[j])
+        for n, shp, yy in zip(out_names, out_shapes, ys):
+            t[n] = _train_form(rng, yy, shp)
+        return t
+
+    def full(shape):
+        if vec > 1:
+            return (vec,) + tuple(shape)
+        return tuple(shape) or (1,)
+
+    cur = {}
+
+    def declare_vars(comp, with_data):
+        for j, n in enumerate(in_names):
+            kw = {}
+            u = pairs[j][1] if pairs[j] else ins[j].get('units')
+            if u:
+                kw['units'] = u
+            if with_data:
+                kw['training_data'] = cur['train'][n]
+            comp.add_input(n, 0.0 if (vec == 1 and not in_shapes[j]) else np.zeros(full(in_shapes[j])), **kw)
+        for n, shp, o in zip(out_names, out_shapes, outs):
+            kw = {}
+            if o.get('spec'):
+                kw['surrogate'] = _make_surrogate(o['spec'])
+            if with_data:
+                kw['training_data'] = cur['train'][n]
+            comp.add_output(n, 0.0 if (vec == 1 and not shp) else np.zeros(full(shp)), **kw)
+
+    def give_options(comp):
+        for n in in_names + out_names:
+            comp.options['train_' + n] = cur['train'][n]
+
+    x1, ys1 = data(case['m'])
+    cur['train'] = forms(x1, ys1)
+    try:
+        ckw = {'vec_size': vec}
+        if dflt:
+            ckw['default_surrogate'] = _make_surrogate(dflt)
+        if declare == 'setup':
+            class _Sub(om.MetaModelUnStructuredComp):
+                def setup(self):
+                    declare_vars(self, route == 'kw')
+            comp = _Sub(**ckw)
+        else:
+            comp = om.MetaModelUnStructuredComp(**ckw)
+            declare_vars(comp, route == 'kw')
+            if route == 'options-pre':
+                give_options(comp)
+        prob = om.Problem()
+        if any(pairs):
+            ivc = prob.model.add_subsystem('ivc', om.IndepVarComp())
+            for j, p in enumerate(pairs):
+                if p:
+                    ivc.add_output('s%d' % j, np.zeros(full(in_shapes[j])), units=p[0])
+        prob.model.add_subsystem('c', comp)
+        for j, p in enumerate(pairs):
+            if p:
+                prob.model.connect('ivc.s%d' % j, 'c.' + in_names[j])
+        if case['asm'] != 'none':
+            prob.model.linear_solver = om.DirectSolver(assemble_jac=True)
+            prob.model.options['assembled_jac_type'] = case['asm']
+        prob.setup(mode=case['mode'])
+        if route == 'options-post' or (declare == 'setup' and route != 'kw'):
+            give_options(comp)
+    except Exception as e:
+        rep.viol(_exc_key('comp-layout', e, 'setup:%s:%s' % (declare, route)), str(e)[:200])
+        return
+
+    # ---- what this case visits
+    arr_before_last = max(in_sizes[:-1]) > 1
+    acc.count('cell:layout:%s:%s' % (vtag, 'array-before-another-input' if arr_before_last else 'offsets-coincide'))
+    if sum(1 for s in in_sizes if s > 1) > 1:
+        acc.count('cell:layout:several-array-inputs')
+    if any(len(s) > 1 for s in in_shapes):
+        acc.count('cell:layout:2d-input')
+    if any(pairs):
+        acc.count('cell:layout:unit-conversion-on-connection')
+    if len(set(_skey(sp) for sp in specs)) > 1:
+        acc.count('cell:layout:different-surrogates')
+    if dflt and any(not o.get('spec') for o in outs):
+        acc.count('cell:layout:default_surrogate')
+    acc.count('cell:layout:data-route:' + route)
+    acc.count('cell:layout:declared-in:' + declare)
+    acc.count('cell:layout:totals:%s:%s' % (case['mode'], case['asm']))
+
+    def set_point(P):
+        """P (vec, d): values the component should see.  Returns what it does see by the harness's own unit table
+        and the bound on the rounding of that conversion."""
+        Peff = np.empty_like(P)
+        dlt = np.zeros_like(P)
+        for j, n in enumerate(in_names):
+            q = P[:, off[j]:off[j + 1]]
+            if pairs[j]:
+                s = q / fac[j] - ofs[j]
+                Peff[:, off[j]:off[j + 1]] = (s + ofs[j]) * fac[j]
+                dlt[:, off[j]:off[j + 1]] = 16 * EPS * (np.abs(s) + abs(ofs[j])) * abs(fac[j])
+                prob.set_val('ivc.s%d' % j, s.reshape(full(in_shapes[j])))
+            else:
+                Peff[:, off[j]:off[j + 1]] = q
+                prob.set_val('c.' + n, q.reshape(full(in_shapes[j])))
+        return Peff, dlt
+
+    def get_outs():
+        return [np.array(prob.get_val('c.' + n), dtype=float).reshape(vec, sz).copy()
+                for n, sz in zip(out_names, out_sizes)]
+
+    def comp_block(n, inn, so, sz):
+        """the component's own sub-jacobian d n / d inn as (vec, so, vec, sz)"""
+        v = comp._jacobian[n, inn]
+        v = v.toarray() if hasattr(v, 'toarray') else np.array(v, dtype=float)
+        info = comp._subjacs_info[('c.' + n, 'c.' + inn)]
+        rows, cols = info.get('rows'), info.get('cols')
+        if rows is not None and v.ndim == 1:
+            full_ = np.zeros((vec * so, vec * sz))
+            full_[np.asarray(rows), np.asarray(cols)] = v
+            v = full_
+        return v.reshape(vec, so, vec, sz)
+
+    def compare(x, ys, tag):
+        refs = []
+        try:
+            for sp, yy in zip(specs, ys):
+                s = _make_surrogate(sp)
+                s.train(x.copy(), yy.copy())
+                refs.append(s)
+        except Exception:
+            acc.count('skip:layout:reference-surrogate-raises')
+            return False
+        Q = lo + rng.uniform(0.1, 0.9, (vec, d)) * (hi - lo)
+        ctx = '%s:%s' % (tag, vtag)
+        try:
+            Qe, dlt = set_point(Q)
+            prob.run_model()
+            got = get_outs()
+            Jc = prob.compute_totals(of=of, wrt=wrt, return_format='dict')
+        except Exception as e:
+            rep.viol(_exc_key('comp-layout', e, ctx), str(e)[:200])
+            return False
+        blocks = None
+        try:
+            blocks = {(n, inn): comp_block(n, inn, so, sz) for n, so in zip(out_names, out_sizes)
+                      for inn, sz in zip(in_names, in_sizes)}
+        except Exception:
+            acc.count('skip:layout:component-jacobian-not-readable')
+        rep.judged = True
+        Jref, amps = [], []
+        for oi, (n, so, s, sp) in enumerate(zip(out_names, out_sizes, refs, specs)):
+            Jo = np.empty((vec, so, d))
+            am = np.empty((vec, so))
+            for r in range(vec):
+                try:
+                    ref = _predict(s, Qe[r])
+                    Jr = np.asarray(s.linearize(Qe[r].copy()), dtype=float).reshape(so, d)
+                except Exception:
+                    acc.count('skip:layout:reference-surrogate-raises')
+                    return False
+                Jo[r] = Jr
+                am[r] = _noise_amp(sp, s, ys[oi], Qe[r])
+                acc.count('obs:layout:output')
+                scale = np.abs(ref).max() + np.abs(ys[oi]).max()
+                if ref.shape != (so,) or not np.all(np.abs(got[oi][r] - ref) <= 1e-9 * scale + 2 * np.abs(Jr) @ dlt[r]):
+                    rep.viol('comp-layout:output-differs-from-predict-on-concatenated-input:%s:%s:%s' % (vtag, tag, _skey(sp)),
+                             'inputs %s outputs %s row %d %s: component %s, surrogate.predict(own concatenation) %s'
+                             % (in_shapes, out_shapes, r, n, got[oi][r].tolist(), ref.tolist()))
+                    return True
+                jscale = np.abs(Jr).max() + 1e-300
+                for j, inn in enumerate(in_names):
+                    mine = Jr[:, off[j]:off[j + 1]]
+                    where = _layout_class(in_sizes, j)
+                    acc.count('obs:layout:totals')
+                    tot = np.array(Jc['c.' + n][wrt[j]], dtype=float)
+                    if tot.shape != (vec * so, vec * in_sizes[j]):
+                        rep.viol('comp-layout:totals-shape:%s:%s:%s' % (vtag, where, tag), '%s for %s' % (tot.shape, (vec * so, vec * in_sizes[j])))
+                        return True
+                    tot = tot.reshape(vec, so, vec, in_sizes[j])
+                    if not np.all(np.abs(tot[r, :, r, :] - mine * fac[j]) <= 1e-9 * jscale * abs(fac[j])):
+                        rep.viol('comp-layout:totals-differ-from-linearize-columns:%s:%s:%s%s:%s'
+                                 % (vtag, where, tag, ':unit-conversion' if pairs[j] else '', _skey(sp)),
+                                 'inputs %s (own offsets %s) row %d d%s/d%s: compute_totals %s, surrogate.linearize[:, %d:%d]'
+                                 '%s %s' % (in_shapes, off, r, n, wrt[j], tot[r, :, r, :].tolist(), off[j], off[j + 1],
+                                            (' * %r' % fac[j]) if pairs[j] else '', (mine * fac[j]).tolist()))
+                        return True
+                    for r2 in range(vec):
+                        if r2 != r and np.any(tot[r, :, r2, :] != 0.0):
+                            rep.viol('comp-layout:partials-couple-vec-rows:%s' % _skey(sp), 'rows %d,%d' % (r, r2))
+                            return True
+                    if blocks is not None:
+                        acc.count('obs:layout:component-jacobian')
+                        cj = blocks[n, inn]
+                        if not np.all(np.abs(cj[r, :, r, :] - mine) <= 1e-9 * jscale):
+                            rep.viol('comp-layout:component-jacobian-differs-from-linearize-columns:%s:%s:%s:%s'
+                                     % (vtag, where, tag, _skey(sp)),
+                                     'inputs %s row %d d%s/d%s: component jacobian %s, surrogate.linearize[:, %d:%d] %s'
+                                     % (in_shapes, r, n, inn, cj[r, :, r, :].tolist(), off[j], off[j + 1], mine.tolist()))
+                            return True
+            Jref.append(Jo)
+            amps.append(am)
+
+        # ---- central differences of the component's own outputs (5-point stencil, two step sizes)
+        xn, xlo, xr = S.unit_normalise(x)
+        hn = np.full(vec, 1e-3)
+        nnb = []
+        for sp, s in zip(specs, refs):
+            kind = sp['kind']
+            if kind in ('rs', 'kriging'):
+                nnb.append(0)
+                continue
+            N = (d + 1) if kind == 'nn-linear' else (5 if kind == 'nn-weighted' else int(s.interpolant.N))
+            nnb.append(N)
+            for r in range(vec):
+                _, dist0 = S.knn(xn, (Qe[r] - xlo) / xr, N + 1)
+                gap = min(dist0[0], np.min(np.diff(dist0)) if N > 1 else dist0[0])
+                hn[r] = min(hn[r], 0.02 * gap / np.sqrt(d))
+        mask = [np.ones((vec, d), dtype=bool) for _ in outs]
+        for r in range(vec):
+            if not hn[r] > 1e-7:
+                hn[r] = 1e-7
+                for mk_ in mask:
+                    mk_[r] = False
+        for oi, N in enumerate(nnb):
+            if not N:
+                continue
+            for r in range(vec):
+                pn = (Qe[r] - xlo) / xr
+                idx0, _ = S.knn(xn, pn, N)
+                for ax in range(d):
+                    for st in (-2, -1, 1, 2):
+                        ps = pn.copy()
+                        ps[ax] += st * hn[r] * 1.01
+                        idx, _ = S.knn(xn, ps, N)
+                        if not np.array_equal(idx, idx0):
+                            mask[oi][r, ax] = False
+        nmask = sum(int((~mk_).sum()) for mk_ in mask)
+        if nmask:
+            acc.count('skip:layout:fd:neighbour-set-changes', nmask)
+        for ax in range(d):
+            if not any(mk_[:, ax].any() for mk_ in mask):
+                continue
+            j = max(jj for jj in range(len(ins)) if off[jj] <= ax)
+            h = hn * xr[ax]
+
+            def f(st):
+                P = Q.copy()
+                P[:, ax] += st * h
+                set_point(P)
+                prob.run_model()
+                return get_outs()
+            try:
+                v1 = [f(st) for st in _STENCIL]
+                v2 = [f(st / 2.0) for st in _STENCIL]
+            except Exception as e:
+                rep.viol(_exc_key('comp-layout', e, 'rerun:' + ctx), str(e)[:200])
+                return False
+            for oi, (n, so, sp) in enumerate(zip(out_names, out_sizes, specs)):
+                D1 = np.tensordot(_W4, np.array([v[oi] for v in v1]), axes=(0, 0)) / h[:, None]
+                D2 = np.tensordot(_W4, np.array([v[oi] for v in v2]), axes=(0, 0)) / (h[:, None] / 2)
+                yscale = np.abs(ys[oi]).max() + 1e-300
+                tot = np.array(Jc['c.' + n][wrt[j]], dtype=float).reshape(vec, so, vec, in_sizes[j])
+                for r in range(vec):
+                    if not mask[oi][r, ax]:
+                        continue
+                    noise = 64 * EPS * amps[oi][r] + 2 * np.abs(Jref[oi][r]) @ dlt[r]
+                    tol = 2 * np.abs(D1[r] - D2[r]) + 3 * noise / (h[r] / 2)
+                    if np.any(tol > 1e-4 * (np.abs(D2[r]) + yscale / xr[ax])):
+                        acc.count('skip:layout:fd:unreliable')
+                        continue
+                    acc.count('obs:layout:fd')
+                    mine = tot[r, :, r, ax - off[j]]
+                    if not np.all(np.abs(mine - D2[r] * fac[j]) <= tol * abs(fac[j])):
+                        rep.viol('comp-layout:totals-differ-from-central-difference-of-outputs:%s:%s:%s%s:%s'
+                                 % (vtag, _layout_class(in_sizes, j), tag, ':unit-conversion' if pairs[j] else '',
+                                    _skey(sp)),
+                                 'inputs %s row %d d%s/d%s[%d]: compute_totals %s, central difference of the component '
+                                 'output %s (tol %s)' % (in_shapes, r, n, wrt[j], ax - off[j], mine.tolist(),
+                                                         (D2[r] * fac[j]).tolist(), (tol * abs(fac[j])).tolist()))
+                        return True
+        return True
+
+    ok = compare(x1, ys1, 'first-training')
+    if ok and not rep.bad:
+        try:
+            if phase2 == 'resetup':
+                prob.setup(mode=case['mode'])
+                if declare == 'setup' and route != 'kw':
+                    give_options(comp)
+                x2, ys2 = x1, ys1
+            else:
+                m2 = case['m'] + (int(rng.integers(1, 6)) if phase2 == 'retrain-resized' else 0)
+                x2, ys2 = data(m2)
+                cur['train'] = forms(x2, ys2)
+                give_options(comp)
+                comp.train = True
+        except Exception as e:
+            rep.viol(_exc_key('comp-layout', e, phase2), str(e)[:200])
+            x2 = None
+        if x2 is not None:
+            acc.count('cell:layout:then:' + phase2)
+            compare(x2, ys2, 'after-' + phase2)
+    try:
+        prob.cleanup()
+    except Exception:
+        pass
+    rep.done()
+
+
+# ------------------------------------------------------------------------------------------------
+JUDGES = {'rs': judge_rs, 'nn': judge_nn, 'kriging': judge_kriging, 'comp': judge_comp, 'layout': judge_layout}
 
 
 def judge(case, acc):
@@ -574,8 +1009,8 @@ def _nn_specs(rng, d):
 
 def _cases(tier, seed):
     rng = np.random.default_rng(1000003 * seed + (41 if tier == 'quick' else 43))
-    n = {'quick': {'rs': 40, 'nn': 90, 'kriging': 36, 'comp': 44},
-         'thorough': {'rs': 500, 'nn': 1400, 'kriging': 450, 'comp': 500}}[tier]
+    n = {'quick': {'rs': 40, 'nn': 90, 'kriging': 36, 'comp': 44, 'layout': 48},
+         'thorough': {'rs': 500, 'nn': 1400, 'kriging': 450, 'comp': 500, 'layout': 700}}[tier]
     out = []
     sid = [0]
 
@@ -628,6 +1063,61 @@ def _cases(tier, seed):
         d = sum(in_sizes)
         mk('comp', spec=spec, vec=int(rng.choice([1, 3])), in_sizes=in_sizes, out_sizes=out_sizes,
            m=int(rng.integers(max(8, (d + 1) * (d + 2) // 2 + 2), 16)), default_surrogate=bool(rng.random() < 0.5))
+
+    # ---- input-layout layer of the component
+    def sur_spec(kind):
+        spec = {'kind': kind}
+        if kind == 'nn-rbf':
+            spec['opts'] = {'num_neighbors': int(rng.integers(5, 8)), 'rbf_family': int(rng.choice([-1, 1, 2]))}
+        if kind == 'kriging':
+            spec['eval_rmse'] = bool(rng.random() < 0.3)
+        return spec
+
+    def layout(shapes, vec, i):
+        d = sum(_size(sh) for sh in shapes)
+        n_out = int(rng.choice([1, 2, 2, 3]))
+        pool = [[], [], [2], [3], [2, 2]]
+        outs = []
+        for o in range(n_out):
+            kind = kinds[(i + o * (1 + i // len(kinds))) % len(kinds)] if o else kinds[i % len(kinds)]
+            outs.append({'shape': pool[int(rng.integers(0, len(pool)))],
+                         'spec': None if rng.random() < 0.4 else sur_spec(kind)})
+        need_default = any(o['spec'] is None for o in outs)
+        dflt = sur_spec(kinds[(i + 2) % len(kinds)]) if (need_default or rng.random() < 0.2) else None
+        used = [(o['spec'] or dflt)['kind'] for o in outs]
+        ins = []
+        for sh in shapes:
+            u = rng.random()
+            ins.append({'shape': sh, 'conn': str(rng.choice(sorted(UNIT_PAIRS))) if u < 0.3 else None,
+                        'units': 'm' if 0.3 <= u < 0.4 else None})
+        need = (d + 1) * (d + 2) // 2 if 'rs' in used else 0
+        declare = 'setup' if rng.random() < 0.3 else 'static'
+        route = str(rng.choice(['kw', 'kw', 'options-pre', 'options-post']))
+        if declare == 'setup' and route == 'options-pre':
+            route = 'options-post'
+        mk('layout', vec=vec, ins=ins, outs=outs, default=dflt, m=int(max(need + 2, d + 5, 10) + rng.integers(0, 6)),
+           route=route, declare=declare, phase2=str(rng.choice(['retrain', 'retrain-resized', 'resetup'])),
+           mode=str(rng.choice(['fwd', 'rev'])), asm=str(rng.choice(['none', 'none', 'none', 'dense', 'csc'])))
+
+    # directed layouts (visited in every run, both branches of the component), then random ones
+    directed = [[[3], []], [[], [2], []], [[2], [3]], [[2, 2], []], [[], [2, 1], [2]], [[2], [], [], [2]]]
+    i = 0
+    for shapes in directed:
+        for vec in (1, 3):
+            layout(shapes, vec, i)
+            i += 1
+    shape_pool = [[], [], [], [2], [2], [3], [2, 2], [1, 2], [2, 1], [1]]
+    for _ in range(n['layout']):
+        while True:
+            shapes = [shape_pool[int(k)] for k in rng.integers(0, len(shape_pool), int(rng.integers(2, 5)))]
+            sizes = [_size(sh) for sh in shapes]
+            if sum(sizes) > 6:
+                continue
+            if max(sizes[:-1]) == 1 and rng.random() < 0.8:
+                continue            # offsets by position and by size coincide: keep only a few of those
+            break
+        layout(shapes, int(rng.choice([1, 1, 2, 3])), i)
+        i += 1
     return out
 
 
@@ -635,7 +1125,7 @@ def _cases(tier, seed):
 # need a few CPU-seconds): `import openmdao.api` (pulls in jax, coloring, ...) costs about 4x the import of the
 # surrogate modules alone.  Only the component part needs openmdao.api, so its cases get their own few shards and the
 # other shards never import it; the number of shards is kept small in the quick tier.
-N_SHARDS = {'quick': {'core': 6, 'comp': 2}, 'thorough': {'core': 40, 'comp': 8}}
+N_SHARDS = {'quick': {'core': 6, 'comp': 4}, 'thorough': {'core': 40, 'comp': 16}}
 
 
 def shards(tier, seed):
@@ -645,7 +1135,7 @@ def shards(tier, seed):
 
 def run_shard(shard, acc):
     comp = shard['group'] == 'comp'
-    mine = [c for c in _cases(shard['tier'], shard['seed']) if (c['part'] == 'comp') == comp]
+    mine = [c for c in _cases(shard['tier'], shard['seed']) if (c['part'] in ('comp', 'layout')) == comp]
     for case in mine[shard['part']::shard['of']]:
         judge(case, acc)
 
